@@ -253,6 +253,8 @@ class Funcs:
     def meta(self, aux):
         if self.style == 3:
             return Meta((self.rid, aux))
+        if self.style == 5:
+            return MetaList([self.rid, aux])  # metadata that is an instance of a list SUBCLASS (with an attribute of its own)
         return (self.rid, aux)
 
     def flatten(self, node):
@@ -337,6 +339,10 @@ class Funcs:
         self.unflatten_calls += 1
         if isinstance(metadata, Meta):
             rid, aux = metadata.v
+        elif self.style == 5:
+            if type(metadata) is not MetaList or metadata.tag != 'metalist':
+                raise TypeError('the metadata handed to the unflatten function is a %s, the flatten function returned a MetaList' % type(metadata).__name__)
+            rid, aux = metadata
         else:
             rid, aux = metadata
         cls = self.cls
@@ -369,6 +375,17 @@ class NoBool(tuple):
 
     def __bool__(self):
         raise ValueError('the truth value of this sequence is ambiguous')
+
+
+class MetaList(list):
+    """Custom-node metadata that is an instance of a list subclass: a 'defensive copy of lists' must not turn it into a list."""
+
+    def __init__(self, items=()):
+        super().__init__(items)
+        self.tag = 'metalist'
+
+    def __reduce__(self):
+        return (MetaList, (list(self),))
 
 
 class MetaHook(type):
